@@ -126,6 +126,48 @@ def _empty_literal(e: ast.AST) -> bool:
     return (isinstance(e, ast.Dict) and not e.keys) or (isinstance(e, (ast.List, ast.Tuple)) and not e.elts)
 
 
+def _origin_ids(cfg, name: ast.Name, at) -> set:
+    """Identity of the definitions a plain local may hold at ``at`` (two names with a common
+    element may denote the same object)."""
+    return {id(s.expr) for s in sources(cfg, name, at)}
+
+
+def _self_attr_value(cfg, e: ast.AST, attr: str, at) -> bool:
+    """``e`` is ``self.<attr>``, written directly or read through plain locals (every
+    source); through a local only while the function never re-binds ``self.<attr>``."""
+    if is_self_attr(e, attr):
+        return True
+    if not isinstance(e, ast.Name):
+        return False
+    ss = sources(cfg, e, at)
+    if not ss or not all(s.kind == "expr" and not s.path and is_self_attr(s.expr, attr) for s in ss):
+        return False
+    for n in walk_local(cfg.func):
+        tgts = n.targets if isinstance(n, ast.Assign) else [n.target] if isinstance(n, (ast.AnnAssign, ast.AugAssign)) else []
+        if any(is_self_attr(t, attr) for t in tgts):
+            return False
+    return True
+
+
+def _indexed_sources(cfg, e: ast.AST, at) -> list:
+    """``single_sources`` that also reads ``t[<int>]`` of a local ``t`` as position <int> of
+    what ``t`` was bound to (a tuple kept whole and indexed == the tuple unpacked)."""
+    out = []
+    for s in single_sources(cfg, e, at):
+        x = s.expr
+        if (
+            s.kind == "expr" and isinstance(x, ast.Subscript) and isinstance(x.value, ast.Name)
+            and isinstance(x.slice, ast.Constant) and isinstance(x.slice.value, int) and not isinstance(x.slice.value, bool)
+            and x.slice.value >= 0
+        ):
+            sub = sources(cfg, x.value, s.stmt, (x.slice.value,) + tuple(s.path))
+            if sub and all(y.kind in ("expr", "param") for y in sub):
+                out += sub
+                continue
+        out.append(s)
+    return out
+
+
 def run(chk) -> None:
     chk.rule("R27a", "merge calls receive their arguments in precedence order, by provenance (user app-dir < home < parents < cwd..file < extra file; defaults < files < overrides); children inherit overrides / extra path / ignore-local")
     chk.rule("R27b", "outside FluffConfig the receiver of an in-place config update is a config created for that file in the same function (reviewed exceptions listed one by one)")
@@ -163,24 +205,32 @@ def _r27d(chk) -> None:
                 if rr and isinstance(rr[1], ast.ClassDef) and _is_fluffconfig_class(repo, rr[1]):
                     ok = True  # built by the constructor, which merges through nested_combine (R27a)
         if not ok and isinstance(r.value, ast.Name):
-            stores = [
-                n for n in walk_local(cp)
-                if isinstance(n, ast.Assign) and any(
-                    isinstance(t, ast.Attribute) and t.attr == "_configs" and isinstance(t.value, ast.Name) and t.value.id == r.value.id
-                    for t in n.targets
-                )
-            ]
+            # the object returned, by the definitions it may come from (not by the local's name):
+            # `x._configs = ...` counts when x may be that same object
+            ret_ids = {id(s.expr) for s in srcs}
+            stores, covered = [], set()
+            for n in walk_local(cp):
+                if not isinstance(n, ast.Assign):
+                    continue
+                for t in n.targets:
+                    if isinstance(t, ast.Attribute) and t.attr == "_configs" and isinstance(t.value, ast.Name) and t.value.id != "self":
+                        ids = _origin_ids(cfg, t.value, n)
+                        if ids & ret_ids:
+                            stores.append(n)
+                            covered |= ids
             if stores:
                 ok = True
                 for st in stores:
                     vs = single_sources(cfg, st.value, st)
                     good = bool(vs) and all(
-                        v.kind == "expr" and isinstance(v.expr, ast.Call) and last_attr(v.expr) in SANITISERS
-                        and v.expr.args and norm(v.expr.args[0]) == "self._configs"
+                        v.kind == "expr" and not v.path and isinstance(v.expr, ast.Call) and last_attr(v.expr) in SANITISERS
+                        and v.expr.args and _self_attr_value(cfg, v.expr.args[0], "_configs", v.stmt)
                         for v in vs
                     )
                     if not good:
                         ok, why = False, f"`{short(st, 70)}`: the value is not deepcopy(self._configs, ..) / nested_combine(self._configs)"
+                if ok and not ret_ids <= covered:
+                    ok, why = False, "one of the objects copy() may return never gets a copied _configs"
                 if ok and not any(cfg.dominates(st, r) for st in stores):
                     ok, why = False, "a return of copy() is not preceded by the store of the copied _configs"
         chk.require(
@@ -1081,12 +1131,19 @@ def _r27c(chk) -> None:
     chk.count("R27c.nested_combine_stores", len(stores))
     n_copy = n_rec = 0
     for st in stores:
-        v = st.value
-        is_copy = isinstance(v, ast.Call) and last_attr(v) == "deepcopy"
-        is_rec = isinstance(v, ast.Call) and _is_nested_combine(repo, v)
+        # the stored value, directly or through plain locals: every definition it may come from
+        vs = [s for s in single_sources(cfg, st.value, st)]
+        kinds = [
+            "copy" if s.kind == "expr" and not s.path and isinstance(s.expr, ast.Call) and last_attr(s.expr) == "deepcopy"
+            else "rec" if s.kind == "expr" and not s.path and isinstance(s.expr, ast.Call) and _is_nested_combine(repo, s.expr)
+            else "other"
+            for s in vs
+        ]
+        is_copy = bool(kinds) and all(k == "copy" for k in kinds)
+        is_rec = bool(kinds) and all(k == "rec" for k in kinds)
         n_copy += is_copy
         n_rec += is_rec
-        chk.require(is_copy or is_rec, "R27c", st, "nested_combine stores a value into its result without deepcopy / recursive merge: the result shares structure with its (cached) inputs", detail=f"result store is a copy: {short(st, 80)}")
+        chk.require(bool(kinds) and "other" not in kinds, "R27c", st, "nested_combine stores a value into its result without deepcopy / recursive merge: the result shares structure with its (cached) inputs", detail=f"result store is a copy: {short(st, 80)}")
     chk.require(n_copy >= 1, "R27c", nc, "nested_combine has no deepcopy(...) of leaf values", detail="leaves are deep-copied")
     chk.require(n_rec >= 1, "R27c", nc, "nested_combine does not merge nested dicts recursively through itself", detail="dict values merged recursively")
     # mutating methods on the result with an input as argument (r[k].update(d[k]) / r.update(d))
@@ -1104,7 +1161,241 @@ def _r27c(chk) -> None:
 
 from ..selftest import Variant  # noqa: E402
 
+_NC_BODY = (
+    "    r: NestedStringDict[T] = {}\n"
+    "    for d in dicts:\n"
+    "        for k in d:\n"
+    "            if k in r and isinstance(r[k], dict):\n"
+    "                if isinstance(d[k], dict):\n"
+    "                    # NOTE: The cast functions here are to appease mypy which doesn't\n"
+    "                    # pick up on the `isinstance` calls above.\n"
+    "                    r[k] = nested_combine(\n"
+    "                        cast(NestedStringDict[T], r[k]), cast(NestedStringDict[T], d[k])\n"
+    "                    )\n"
+    "                else:  # pragma: no cover\n"
+    "                    raise ValueError(\n"
+    "                        \"Key {!r} is a dict in one config but not another! PANIC: \"\n"
+    "                        \"{!r}\".format(k, d[k])\n"
+    "                    )\n"
+    "            else:\n"
+    "                # In normal operation, these nested dicts should only contain\n"
+    "                # immutable objects like strings, or contain lists or dicts\n"
+    "                # which are simple to copy. We use deep copy to make sure that\n"
+    "                # and dicts or lists within the value are also copied. This should\n"
+    "                # also protect in future in case more exotic objects get added to\n"
+    "                # the dict.\n"
+    "                r[k] = deepcopy(d[k])\n"
+    "    return r\n"
+)
+
+_LOADER_HEAD = (
+    "    if not ignore_local_config:\n"
+    "        user_appdir_config = _load_user_appdir_config()\n"
+    "        user_config = load_config_at_path(os.path.expanduser(\"~\"))\n"
+    "    else:\n"
+    "        user_config, user_appdir_config = {}, {}\n"
+    "\n"
+    "    # 3) Local project config\n"
+    "    parent_config_stack = []\n"
+    "    config_stack = []\n"
+    "    if not ignore_local_config:\n"
+    "        # Finding all paths between here and the home\n"
+    "        # directory. We could start at the root of the filesystem,\n"
+    "        # but depending on the user's setup, this might result in\n"
+    "        # permissions errors.\n"
+    "        parent_config_paths = list(\n"
+    "            iter_intermediate_paths(\n"
+    "                Path(path).absolute(), Path(os.path.expanduser(\"~\"))\n"
+    "            )\n"
+    "        )\n"
+)
+
+_WALK_TAIL = (
+    "    if not common_path:\n"
+    "        yield outer_path.resolve()\n"
+    "    else:\n"
+    "        # we have a sub path! We can load nested paths\n"
+    "        path_to_visit = common_path\n"
+    "        while path_to_visit != inner_path:\n"
+    "            yield path_to_visit.resolve()\n"
+    "            next_path_to_visit = (\n"
+    "                path_to_visit / inner_path.relative_to(path_to_visit).parts[0]\n"
+    "            )\n"
+    "            if next_path_to_visit == path_to_visit:  # pragma: no cover\n"
+    "                # we're not making progress...\n"
+    "                # [prevent infinite loop]\n"
+    "                break\n"
+    "            path_to_visit = next_path_to_visit\n"
+    "\n"
+    "    yield inner_path.resolve()\n"
+)
+
 VARIANTS = [
+    # behaviour-preserving refactors: must stay quiet
+    Variant(
+        "quiet-copy-through-temp", FLUFF,
+        "        config_copy = copy(self)\n        config_copy._configs = configs_attribute_copy\n        return config_copy\n",
+        "        duplicate = copy(self)\n        fresh_configs = configs_attribute_copy\n        duplicate._configs = fresh_configs\n        return duplicate\n",
+        "QUIET", None, "copied dict passed through another local, result renamed",
+    ),
+    Variant(
+        "quiet-copy-deepcopy-of-local", FLUFF,
+        "        configs_attribute_copy = deepcopy(self._configs, memo)\n",
+        "        own_configs = self._configs\n        configs_attribute_copy = deepcopy(own_configs, memo)\n",
+        "QUIET", None, "R27d: the dict handed to deepcopy is self._configs read through a local",
+    ),
+    Variant(
+        "quiet-copy-returned-through-alias", FLUFF,
+        "        config_copy._configs = configs_attribute_copy\n        return config_copy\n",
+        "        config_copy._configs = configs_attribute_copy\n        isolated = config_copy\n        return isolated\n",
+        "QUIET", None, "R27d: the copy is returned through one more local",
+    ),
+    Variant(
+        "quiet-merge-leaf-copy-through-local", HDICT,
+        "                r[k] = deepcopy(d[k])\n",
+        "                leaf_copy = deepcopy(d[k])\n                r[k] = leaf_copy\n",
+        "QUIET", None, "R27c/R27e nested_combine: the deep copy is made into a local, then stored",
+    ),
+    Variant(
+        "quiet-merge-recursive-through-local", HDICT,
+        "                    r[k] = nested_combine(\n                        cast(NestedStringDict[T], r[k]), cast(NestedStringDict[T], d[k])\n                    )\n",
+        "                    merged_section = nested_combine(\n                        cast(NestedStringDict[T], r[k]), cast(NestedStringDict[T], d[k])\n                    )\n                    r[k] = merged_section\n",
+        "QUIET", None, "R27c/R27e nested_combine: the recursive merge is made into a local, then stored",
+    ),
+    Variant(
+        "quiet-merge-early-continue-items", HDICT,
+        _NC_BODY,
+        "    combined: NestedStringDict[T] = {}\n"
+        "    for layer in dicts:\n"
+        "        for key, value in layer.items():\n"
+        "            if key not in combined or not isinstance(combined[key], dict):\n"
+        "                combined[key] = deepcopy(value)\n"
+        "                continue\n"
+        "            if not isinstance(value, dict):  # pragma: no cover\n"
+        "                raise ValueError(\n"
+        "                    \"Key {!r} is a dict in one config but not another! PANIC: \"\n"
+        "                    \"{!r}\".format(key, value)\n"
+        "                )\n"
+        "            combined[key] = nested_combine(\n"
+        "                cast(NestedStringDict[T], combined[key]), cast(NestedStringDict[T], value)\n"
+        "            )\n"
+        "    return combined\n",
+        "QUIET", None, "R27e/R27c nested_combine rewritten with .items(), renamed locals, De Morgan + early continue / raise instead of if/else nesting",
+    ),
+    Variant(
+        "quiet-loader-layers-list-then-star", LOADER,
+        "    return nested_combine(\n        user_appdir_config,\n        user_config,\n        *parent_config_stack,\n        *config_stack,\n        extra_config,\n    )",
+        "    layers = [\n        user_appdir_config,\n        user_config,\n        *parent_config_stack,\n        *config_stack,\n        extra_config,\n    ]\n    return nested_combine(*layers)",
+        "QUIET", None, "R27a loader: the precedence order is written as a list display which is then splatted into the merge",
+    ),
+    Variant(
+        "quiet-loader-merged-if-home-local", LOADER,
+        _LOADER_HEAD,
+        "    parent_config_stack = []\n"
+        "    config_stack = []\n"
+        "    if ignore_local_config:\n"
+        "        user_config, user_appdir_config = {}, {}\n"
+        "    else:\n"
+        "        home_dir = os.path.expanduser(\"~\")\n"
+        "        user_appdir_config = _load_user_appdir_config()\n"
+        "        user_config = load_config_at_path(home_dir)\n"
+        "        target = Path(path).absolute()\n"
+        "        parent_config_paths = list(\n"
+        "            iter_intermediate_paths(inner_path=target, outer_path=Path(home_dir))\n"
+        "        )\n",
+        "QUIET", None, "R27a loader: the two `if not ignore_local_config` blocks merged into one if/else with swapped arms, home dir and target path through locals, keyword arguments to the walk",
+    ),
+    Variant(
+        "quiet-loader-stack-built-by-loop", LOADER,
+        "        config_stack = [load_config_at_path(str(p.resolve())) for p in config_paths]\n",
+        "        for config_dir in config_paths:\n            config_stack.append(load_config_at_path(str(config_dir.resolve())))\n",
+        "QUIET", None, "R27a loader / R27c: comprehension spelled as a loop appending to the (already initialised) empty list",
+    ),
+    Variant(
+        "quiet-walk-yield-through-local", HFILE,
+        "            yield path_to_visit.resolve()\n",
+        "            resolved_step = path_to_visit.resolve()\n            yield resolved_step\n",
+        "QUIET", None, "R27a walk: the yielded intermediate directory goes through a local",
+    ),
+    Variant(
+        "quiet-walk-first-component-hoisted", HFILE,
+        "            next_path_to_visit = (\n                path_to_visit / inner_path.relative_to(path_to_visit).parts[0]\n            )\n",
+        "            remaining_parts = inner_path.relative_to(path_to_visit).parts\n            first_component = remaining_parts[0]\n            next_path_to_visit = path_to_visit / first_component\n",
+        "QUIET", None, "R27a walk: the first remaining component is hoisted into locals before the division",
+    ),
+    Variant(
+        "quiet-walk-no-common-path-early-return", HFILE,
+        _WALK_TAIL,
+        "    if not common_path:\n"
+        "        yield outer_path.resolve()\n"
+        "        yield inner_path.resolve()\n"
+        "        return\n"
+        "\n"
+        "    # we have a sub path! We can load nested paths\n"
+        "    path_to_visit = common_path\n"
+        "    while path_to_visit != inner_path:\n"
+        "        yield path_to_visit.resolve()\n"
+        "        next_path_to_visit = (\n"
+        "            path_to_visit / inner_path.relative_to(path_to_visit).parts[0]\n"
+        "        )\n"
+        "        if next_path_to_visit == path_to_visit:  # pragma: no cover\n"
+        "            # we're not making progress...\n"
+        "            # [prevent infinite loop]\n"
+        "            break\n"
+        "        path_to_visit = next_path_to_visit\n"
+        "\n"
+        "    yield inner_path.resolve()\n",
+        "QUIET", None, "R27a walk: the no-common-path arm yields both ends and returns early; the walk is dedented out of the else arm",
+    ),
+    Variant(
+        "quiet-init-merge-layers-hoisted", FLUFF,
+        "        self._configs = nested_combine(\n            defaults, configs or empty_config, overrides or empty_overrides\n        )\n",
+        "        file_layer = configs or empty_config\n        override_layer = overrides or empty_overrides\n        merged = nested_combine(defaults, file_layer, override_layer)\n        self._configs = merged\n",
+        "QUIET", None, "R27a __init__: the three merge layers and the merge result go through locals",
+    ),
+    Variant(
+        "quiet-init-core-overrides-before-wrap", FLUFF,
+        "        if overrides:\n            overrides = {\"core\": overrides}\n            validate_config_dict(overrides, \"<provided overrides>\")\n        # Stash overrides so we can pass them to child configs\n        core_overrides = overrides[\"core\"] if overrides else None\n",
+        "        core_overrides = None\n        if overrides:\n            core_overrides = overrides\n            overrides = {\"core\": core_overrides}\n            validate_config_dict(overrides, \"<provided overrides>\")\n        # Stash overrides so we can pass them to child configs\n",
+        "QUIET", None, "R27a __init__: the core overrides are remembered before wrapping instead of being read back out of the wrapper (same object)",
+    ),
+    Variant(
+        "quiet-child-inherits-through-locals-positional", FLUFF,
+        "        return self.from_path(\n            path,\n            extra_config_path=self._extra_config_path,\n            ignore_local_config=self._ignore_local_config,\n            overrides=self._overrides,\n",
+        "        inherited_overrides = self._overrides\n        inherited_extra = self._extra_config_path\n        child_path = path\n        return self.from_path(\n            child_path,\n            inherited_extra,\n            self._ignore_local_config,\n            overrides=inherited_overrides,\n",
+        "QUIET", None, "R27a make_child_from_path: inherited values read into locals first, two of them passed positionally",
+    ),
+    Variant(
+        "quiet-from-root-positional-inline", FLUFF,
+        "        configs = load_config_up_to_path(\n            path=\".\",\n            extra_config_path=extra_config_path,\n            ignore_local_config=ignore_local_config,\n        )\n        return cls(\n            configs=configs,\n            extra_config_path=extra_config_path,\n            ignore_local_config=ignore_local_config,\n            overrides=overrides,\n            require_dialect=require_dialect,\n        )\n",
+        "        extra = extra_config_path\n        root_config = cls(\n            load_config_up_to_path(\".\", extra, ignore_local_config),\n            extra,\n            ignore_local_config,\n            overrides,\n            require_dialect=require_dialect,\n        )\n        return root_config\n",
+        "QUIET", None, "R27a from_root: loader call inlined, positional arguments, parameter alias, result through a local",
+    ),
+    Variant(
+        "quiet-get-config-return-after-try", CLI,
+        "    try:\n        return FluffConfig.from_root(\n            extra_config_path=extra_config_path,\n            ignore_local_config=ignore_local_config,\n            overrides=overrides,\n            require_dialect=kwargs.pop(\"require_dialect\", True),\n        )\n    except SQLFluffUserError as err:  # pragma: no cover\n",
+        "    try:\n        root_cfg = FluffConfig.from_root(\n            extra_config_path=extra_config_path,\n            ignore_local_config=ignore_local_config,\n            overrides=overrides,\n            require_dialect=kwargs.pop(\"require_dialect\", True),\n        )\n        return root_cfg\n    except SQLFluffUserError as err:  # pragma: no cover\n",
+        "QUIET", None, "R27a cli get_config: the built config goes through a local before being returned",
+    ),
+    Variant(
+        "quiet-render-loaded-tuple-indexed", CLI,
+        "                raw_sql, file_config, _ = lnt.load_raw_file_and_config(path, lnt.config)\n",
+        "                loaded = lnt.load_raw_file_and_config(path, lnt.config)\n                raw_sql = loaded[0]\n                file_config = loaded[1]\n",
+        "QUIET", None, "R27b render: the (raw, config, encoding) tuple is kept whole and indexed instead of unpacked",
+    ),
+    Variant(
+        "quiet-file-config-scanned-by-nested-helper", LINTER,
+        "        file_config.process_raw_file_for_config(raw_file, fname)\n",
+        "        def _scan_inline_directives(per_file_config: FluffConfig) -> None:\n            per_file_config.process_raw_file_for_config(raw_file, fname)\n\n        _scan_inline_directives(file_config)\n",
+        "QUIET", None, "R27b load_raw_file_and_config: the in-place update moved into a nested helper whose only caller passes the fresh child config",
+    ),
+    Variant(
+        "quiet-parse-string-copy-per-branch", LINTER,
+        "        config = (config or self.config).copy()\n",
+        "        if config:\n            local_config = config.copy()\n        else:\n            local_config = self.config.copy()\n        config = local_config\n",
+        "QUIET", None, "R27b parse_string: `(a or b).copy()` spelled as if/else with a copy on each arm",
+    ),
+    # breaking edits
     Variant(
         "copy-shallow-sections", FLUFF,
         "        configs_attribute_copy = deepcopy(self._configs, memo)\n",
@@ -1116,12 +1407,6 @@ VARIANTS = [
         "            else:\n                # In normal operation, these nested dicts should only contain\n",
         "            elif d[k] is None and k in r:\n                continue\n            else:\n                # In normal operation, these nested dicts should only contain\n",
         "R27e", "nested_combine", "seeded C27-2: a nearer `key = None` no longer overrides a farther value",
-    ),
-    Variant(
-        "quiet-copy-through-temp", FLUFF,
-        "        config_copy = copy(self)\n        config_copy._configs = configs_attribute_copy\n        return config_copy\n",
-        "        duplicate = copy(self)\n        fresh_configs = configs_attribute_copy\n        duplicate._configs = fresh_configs\n        return duplicate\n",
-        "QUIET", None, "copied dict passed through another local, result renamed",
     ),
     # ---- R27a ------------------------------------------------------------------
     Variant(
